@@ -88,7 +88,13 @@ def slot_marker_text(c):
     def own_level(d):
         if not isinstance(d, dict):
             return json.dumps(d)
-        return ' '.join([str(k) for k in d] + [str(v) for v in d.values() if not isinstance(v, (dict, list))])
+        flat = []
+        for v in d.values():            # one level of values: a marker appended to a parsed parameter list counts
+            if isinstance(v, list):
+                flat += [str(x) for x in v if not isinstance(x, (dict, list))]
+            elif not isinstance(v, dict):
+                flat.append(str(v))
+        return ' '.join([str(k) for k in d] + flat)
     hooks = c.get('hooks') or {}
     tm = c.get('toolmaps') if isinstance(c.get('toolmaps'), dict) else {}
     out = {
